@@ -363,6 +363,7 @@ func chrootCommand(cmdinfo commandInfo) {
 
 
 func shakeCommand(cmdinfo commandInfo) {
+	cmdinfo.getArgs(0, 0)
 	layers, _ := cmdinfo.getLayers()
 	err := layers.Shake()
 	if nil != err {
